@@ -1,3 +1,916 @@
-pub fn run(_args: &[&str]) -> String {
-    "HARNESS-ERROR not implemented".into()
+//! IO suite: drives the real `flatty_io` senders and receivers (blocking and async) over scripted
+//! pipes and prints one canonical result per case.  The protocol is `notes/io-protocol.md`; the
+//! model side (`coq/Model/Io.v` through `runner/main.ml`) prints the same lines.
+//!
+//! Case line: `IO <cid> <kind> <shape> <args...>`; `main.rs` looks the shape up and calls
+//! `Ops::io(kind, args)`, which lands in [`run_io`] with `args = toks[4..]`.
+//!
+//! Kinds
+//!
+//! * `recv <max_msg_len> <stream-hex|-> <rscript> <nrecv>`
+//!   blocking `Receiver::<T, _>::io(ScriptedRead, max_msg_len)`; `nrecv` times `recv()`.
+//!   Read directives (one per `read()` call, comma separated, `-` = empty): `d<k>` deliver
+//!   `min(k, buf.len(), remaining)` bytes, `z` `Ok(0)`, `e<Kind>` error; after the script: deliver
+//!   everything that fits.  Result `r=<o1>;<o2>;... calls=<read calls>` with outcomes
+//!   `msg:<deep read>`, `closed`, `parse:<Kind>:<pos>`, `read:<io Kind>`, `panic` (stop), `hang` (stop).
+//! * `send <max_msg_len> <wscript> | <init> | <init> ...`
+//!   blocking `Sender::<T, _>::io(ScriptedWrite, max_msg_len)`; per init `alloc()`,
+//!   `new_in_place(Dyn(&spec))`, `send()`.  Write directives: `a<k>` accept `min(k, buf.len())`, `z`
+//!   `Ok(0)`, `e<Kind>` error; after the script: accept everything.  Result
+//!   `s=<o1>;... sink=<hex|-> calls=<write calls>` with outcomes `ok`, `alloc:<Kind>`,
+//!   `emplace:<Kind>:<pos>`, `io:<Kind>`, `panic` (continue), `hang` (stop).
+//! * `arecv <max_msg_len> <stream-hex|-> <rscript> <nrecv>`
+//!   the async `Receiver` over a scripted `AsyncRead`, every future polled by hand with a no-op
+//!   waker.  Extra directive `p` (the pipe call returns `Pending`).  Result
+//!   `r=... calls=<poll_read calls> polls=<future polls>`.
+//! * `asend <max_msg_len> <wscript> <fscript> | <init> | ...`
+//!   the async `Sender` over a scripted `AsyncWrite`; `fscript` (`fo`, `fp`, `fe<Kind>`) drives
+//!   `poll_flush`.  Every outcome carries the pipe event log of that send: `ok[w3.wp.w2.fo]`.
+//!   Result `s=... sink=<hex|-> calls=<poll_write calls> polls=<future polls>`.
+//! * `sys <max_msg_len> <pipe_cap> <schedule|-> | <init> | ...`
+//!   an async sender task and an async receiver task joined by a bounded ring pipe, polled
+//!   according to the schedule (`S`/`R` poll the sender/receiver task, `s`/`r` the same with a
+//!   spurious `Pending` from the first `poll_write`/`poll_read` of that poll), then `S`,`R` alternating.
+//!   Result `delivered=<v1>;<v2>;... recv_end=<..> send_end=<..> polls=<task polls>`.
+//!
+//! Choices made where the protocol leaves room (the model has to agree with these):
+//!
+//! * The pipe counts a call before it checks the watchdog, so a tripped watchdog shows
+//!   `calls = limit + 1`.  The watchdog looks at read calls (`recv`, `arecv`) and write calls
+//!   (`send`, `asend`) only; flush calls are neither counted nor limited.
+//! * `asend`: `limit = 64 * #inits + len(wscript) + len(fscript) + 16`.
+//! * The poll budget of `arecv`/`asend` is one budget for the whole case: when a future needs
+//!   another poll and `polls == limit` already, that step is `hang` (the poll is not made).
+//! * `hang` stops the case in all four scripted kinds (also in `send`/`asend`, where errors and
+//!   panics continue with the next init).
+//! * `asend` prints the event log after every outcome, also the ones that cannot have events:
+//!   `emplace:InsufficientSize:0[]`, `alloc:Other[]`, `hang[wp.wp]`.  An empty log is `[]`.
+//! * When the constructor (`::io`) itself panics the only outcome is `panic` (`r=panic calls=0`).
+//! * `sys`: a poll of a finished task is not made and not counted, neither in `polls=` nor in the
+//!   budget of the tail.  The tail starts with `S`.  The spurious flag belongs to one poll: it is
+//!   cleared after the poll when no `poll_write`/`poll_read` used it; `poll_flush` neither looks at it
+//!   nor uses it.  The write end is closed as soon as the sender task is finished in any way (value,
+//!   error, panic).  An alloc error of the sender task is `io:<Kind>`.
+//! * `sys`: `total bytes` of the tail budget is the number of bytes a blocking sender with the same
+//!   `max_msg_len` writes for these inits when every write is accepted, i.e. the sum of the sizes of
+//!   all messages whose emplacement succeeds (a failing init counts 0, the ones after it still count);
+//!   `number of messages` is the number of inits.
+//! * `sys` has two extra ends that only a defective library can reach: `recv_end=hang` when the
+//!   receiver task delivered more than `#inits + 16` messages (messages of size 0 never read the pipe)
+//!   and `hang` for either end when the ring saw more than `8 * (total bytes + #inits) + 4 *
+//!   len(schedule) + 256` pipe calls.
+//! * An empty schedule may be written `-`.
+//!
+//! Bytes the library never initialises (padding) come out of the sink as whatever the allocator left
+//! there; the comparison has to mask them like it does for `buf=` of the emplace suite.
+#![allow(clippy::all)]
+
+use crate::probe::{bytes_to_hex, hex_to_bytes, parse_spec, tokenize, DeepRead, Dyn, Probe, Spec};
+use flatty::Emplacer;
+use flatty_io::{AsyncReceiver, AsyncSender, Receiver, RecvError, Sender};
+use futures::io::{AsyncRead, AsyncWrite};
+use futures::task::noop_waker;
+use std::any::Any;
+use std::cell::{Cell, RefCell};
+use std::collections::VecDeque;
+use std::future::Future;
+use std::io;
+use std::ops::Deref;
+use std::panic::{catch_unwind, panic_any, resume_unwind, AssertUnwindSafe};
+use std::pin::Pin;
+use std::rc::Rc;
+use std::task::{Context, Poll};
+
+const WATCHDOG: &str = "WATCHDOG";
+
+type Payload = Box<dyn Any + Send>;
+
+fn is_watchdog(p: &Payload) -> bool {
+    if let Some(s) = p.downcast_ref::<&'static str>() {
+        return *s == WATCHDOG;
+    }
+    if let Some(s) = p.downcast_ref::<String>() {
+        return s == WATCHDOG;
+    }
+    false
+}
+
+fn panic_s(p: &Payload) -> &'static str {
+    if is_watchdog(p) {
+        "hang"
+    } else {
+        "panic"
+    }
+}
+
+// ---------------------------------------------------------------- directives
+
+#[derive(Clone, Copy, Debug)]
+enum Dir {
+    /// `d<k>` / `a<k>`
+    Data(usize),
+    /// `z`
+    Zero,
+    /// `e<Kind>`
+    Fail(io::ErrorKind),
+    /// `p` (async only)
+    Pending,
+}
+
+#[derive(Clone, Copy, Debug)]
+enum FlushDir {
+    Done,
+    Pending,
+    Fail(io::ErrorKind),
+}
+
+fn parse_kind(s: &str) -> Result<io::ErrorKind, String> {
+    use io::ErrorKind::*;
+    Ok(match s {
+        "Interrupted" => Interrupted,
+        "WouldBlock" => WouldBlock,
+        "Other" => Other,
+        "UnexpectedEof" => UnexpectedEof,
+        "BrokenPipe" => BrokenPipe,
+        "TimedOut" => TimedOut,
+        "OutOfMemory" => OutOfMemory,
+        "InvalidData" => InvalidData,
+        "InvalidInput" => InvalidInput,
+        "WriteZero" => WriteZero,
+        "ConnectionReset" => ConnectionReset,
+        "ConnectionAborted" => ConnectionAborted,
+        "NotConnected" => NotConnected,
+        other => return Err(format!("unknown io error kind {}", other)),
+    })
+}
+
+fn parse_usize(s: &str, what: &str) -> Result<usize, String> {
+    s.parse::<usize>().map_err(|_| format!("bad {} {:?}", what, s))
+}
+
+/// `data` is the letter of the data directive: `d` for read scripts, `a` for write scripts.
+fn parse_script(s: &str, data: char, allow_pending: bool) -> Result<VecDeque<Dir>, String> {
+    let mut out = VecDeque::new();
+    if s == "-" || s.is_empty() {
+        return Ok(out);
+    }
+    for t in s.split(',') {
+        let d = if t == "z" {
+            Dir::Zero
+        } else if t == "p" {
+            if !allow_pending {
+                return Err(format!("directive p in a blocking script {:?}", s));
+            }
+            Dir::Pending
+        } else if let Some(k) = t.strip_prefix('e') {
+            Dir::Fail(parse_kind(k)?)
+        } else if let Some(k) = t.strip_prefix(data) {
+            Dir::Data(parse_usize(k, "directive count")?)
+        } else {
+            return Err(format!("bad directive {:?} in {:?}", t, s));
+        };
+        out.push_back(d);
+    }
+    Ok(out)
+}
+
+fn parse_flush_script(s: &str) -> Result<VecDeque<FlushDir>, String> {
+    let mut out = VecDeque::new();
+    if s == "-" || s.is_empty() {
+        return Ok(out);
+    }
+    for t in s.split(',') {
+        let d = if t == "fo" {
+            FlushDir::Done
+        } else if t == "fp" {
+            FlushDir::Pending
+        } else if let Some(k) = t.strip_prefix("fe") {
+            FlushDir::Fail(parse_kind(k)?)
+        } else {
+            return Err(format!("bad flush directive {:?} in {:?}", t, s));
+        };
+        out.push_back(d);
+    }
+    Ok(out)
+}
+
+/// `| <init> | <init> ...` -> specs.  `toks` starts at the first `|` (or is empty).
+fn parse_inits(toks: &[&str]) -> Result<Vec<Spec>, String> {
+    let toks: Vec<&str> = toks.iter().copied().filter(|t| !t.is_empty()).collect();
+    if toks.is_empty() {
+        return Ok(Vec::new());
+    }
+    if toks[0] != "|" {
+        return Err(format!("expected | before the inits, found {:?}", toks[0]));
+    }
+    let mut out = Vec::new();
+    for group in toks.split(|t| *t == "|") {
+        if group.is_empty() {
+            continue;
+        }
+        let text = group.join(" ");
+        let st = tokenize(&text);
+        let mut p = 0;
+        let spec = catch_unwind(AssertUnwindSafe(|| parse_spec(&st, &mut p))).map_err(|_| format!("bad init {:?}", text))?;
+        if p != st.len() {
+            return Err(format!("trailing tokens in init {:?}", text));
+        }
+        out.push(spec);
+    }
+    Ok(out)
+}
+
+// ---------------------------------------------------------------- scripted read end
+
+struct ReadState {
+    stream: Vec<u8>,
+    pos: usize,
+    script: VecDeque<Dir>,
+    calls: usize,
+    limit: usize,
+}
+
+impl ReadState {
+    fn new(stream: Vec<u8>, script: VecDeque<Dir>, limit: usize) -> Rc<RefCell<Self>> {
+        Rc::new(RefCell::new(ReadState {
+            stream,
+            pos: 0,
+            script,
+            calls: 0,
+            limit,
+        }))
+    }
+    fn step(&mut self, buf: &mut [u8]) -> Poll<io::Result<usize>> {
+        self.calls += 1;
+        if self.calls > self.limit {
+            panic_any(WATCHDOG);
+        }
+        let k = match self.script.pop_front() {
+            None => usize::MAX,
+            Some(Dir::Data(k)) => k,
+            Some(Dir::Zero) => return Poll::Ready(Ok(0)),
+            Some(Dir::Fail(kind)) => return Poll::Ready(Err(kind.into())),
+            Some(Dir::Pending) => return Poll::Pending,
+        };
+        let n = k.min(buf.len()).min(self.stream.len() - self.pos);
+        buf[..n].copy_from_slice(&self.stream[self.pos..self.pos + n]);
+        self.pos += n;
+        Poll::Ready(Ok(n))
+    }
+}
+
+pub struct ScriptedRead(Rc<RefCell<ReadState>>);
+
+impl io::Read for ScriptedRead {
+    fn read(&mut self, buf: &mut [u8]) -> io::Result<usize> {
+        match self.0.borrow_mut().step(buf) {
+            Poll::Ready(r) => r,
+            Poll::Pending => panic!("pending directive in a blocking read script"),
+        }
+    }
+}
+
+pub struct ScriptedAsyncRead(Rc<RefCell<ReadState>>);
+
+impl AsyncRead for ScriptedAsyncRead {
+    fn poll_read(self: Pin<&mut Self>, _cx: &mut Context<'_>, buf: &mut [u8]) -> Poll<io::Result<usize>> {
+        self.0.borrow_mut().step(buf)
+    }
+}
+
+// ---------------------------------------------------------------- scripted write end
+
+struct WriteState {
+    sink: Vec<u8>,
+    wscript: VecDeque<Dir>,
+    fscript: VecDeque<FlushDir>,
+    calls: usize,
+    limit: usize,
+    events: Vec<String>,
+}
+
+impl WriteState {
+    fn new(wscript: VecDeque<Dir>, fscript: VecDeque<FlushDir>, limit: usize) -> Rc<RefCell<Self>> {
+        Rc::new(RefCell::new(WriteState {
+            sink: Vec::new(),
+            wscript,
+            fscript,
+            calls: 0,
+            limit,
+            events: Vec::new(),
+        }))
+    }
+    fn write_step(&mut self, buf: &[u8]) -> Poll<io::Result<usize>> {
+        self.calls += 1;
+        if self.calls > self.limit {
+            panic_any(WATCHDOG);
+        }
+        let k = match self.wscript.pop_front() {
+            None => usize::MAX,
+            Some(Dir::Data(k)) => k,
+            Some(Dir::Zero) => 0,
+            Some(Dir::Fail(kind)) => {
+                self.events.push("we".into());
+                return Poll::Ready(Err(kind.into()));
+            }
+            Some(Dir::Pending) => {
+                self.events.push("wp".into());
+                return Poll::Pending;
+            }
+        };
+        let n = k.min(buf.len());
+        if n == 0 {
+            self.events.push("wz".into());
+        } else {
+            self.sink.extend_from_slice(&buf[..n]);
+            self.events.push(format!("w{}", n));
+        }
+        Poll::Ready(Ok(n))
+    }
+    fn flush_step(&mut self) -> Poll<io::Result<()>> {
+        match self.fscript.pop_front() {
+            None | Some(FlushDir::Done) => {
+                self.events.push("fo".into());
+                Poll::Ready(Ok(()))
+            }
+            Some(FlushDir::Pending) => {
+                self.events.push("fp".into());
+                Poll::Pending
+            }
+            Some(FlushDir::Fail(kind)) => {
+                self.events.push("fe".into());
+                Poll::Ready(Err(kind.into()))
+            }
+        }
+    }
+    fn take_events(&mut self) -> String {
+        let s = self.events.join(".");
+        self.events.clear();
+        s
+    }
+}
+
+pub struct ScriptedWrite(Rc<RefCell<WriteState>>);
+
+impl io::Write for ScriptedWrite {
+    fn write(&mut self, buf: &[u8]) -> io::Result<usize> {
+        match self.0.borrow_mut().write_step(buf) {
+            Poll::Ready(r) => r,
+            Poll::Pending => panic!("pending directive in a blocking write script"),
+        }
+    }
+    fn flush(&mut self) -> io::Result<()> {
+        Ok(())
+    }
+}
+
+pub struct ScriptedAsyncWrite(Rc<RefCell<WriteState>>);
+
+impl AsyncWrite for ScriptedAsyncWrite {
+    fn poll_write(self: Pin<&mut Self>, _cx: &mut Context<'_>, buf: &[u8]) -> Poll<io::Result<usize>> {
+        self.0.borrow_mut().write_step(buf)
+    }
+    fn poll_flush(self: Pin<&mut Self>, _cx: &mut Context<'_>) -> Poll<io::Result<()>> {
+        self.0.borrow_mut().flush_step()
+    }
+    fn poll_close(self: Pin<&mut Self>, _cx: &mut Context<'_>) -> Poll<io::Result<()>> {
+        Poll::Ready(Ok(()))
+    }
+}
+
+// ---------------------------------------------------------------- ring pipe (sys)
+
+struct Ring {
+    data: VecDeque<u8>,
+    cap: usize,
+    closed: bool,
+    /// set by the scheduler for one task poll; the first poll_write / poll_read uses it
+    spurious: bool,
+    calls: usize,
+    limit: usize,
+}
+
+impl Ring {
+    fn call(&mut self) {
+        self.calls += 1;
+        if self.calls > self.limit {
+            panic_any(WATCHDOG);
+        }
+    }
+}
+
+pub struct RingWriter(Rc<RefCell<Ring>>);
+pub struct RingReader(Rc<RefCell<Ring>>);
+
+impl AsyncWrite for RingWriter {
+    fn poll_write(self: Pin<&mut Self>, _cx: &mut Context<'_>, buf: &[u8]) -> Poll<io::Result<usize>> {
+        let mut r = self.0.borrow_mut();
+        r.call();
+        if r.spurious {
+            r.spurious = false;
+            return Poll::Pending;
+        }
+        if buf.is_empty() {
+            return Poll::Ready(Ok(0));
+        }
+        let free = r.cap - r.data.len();
+        if free == 0 {
+            return Poll::Pending;
+        }
+        let n = buf.len().min(free);
+        r.data.extend(buf[..n].iter().copied());
+        Poll::Ready(Ok(n))
+    }
+    fn poll_flush(self: Pin<&mut Self>, _cx: &mut Context<'_>) -> Poll<io::Result<()>> {
+        Poll::Ready(Ok(()))
+    }
+    fn poll_close(self: Pin<&mut Self>, _cx: &mut Context<'_>) -> Poll<io::Result<()>> {
+        Poll::Ready(Ok(()))
+    }
+}
+
+impl AsyncRead for RingReader {
+    fn poll_read(self: Pin<&mut Self>, _cx: &mut Context<'_>, buf: &mut [u8]) -> Poll<io::Result<usize>> {
+        let mut r = self.0.borrow_mut();
+        r.call();
+        if r.spurious {
+            r.spurious = false;
+            return Poll::Pending;
+        }
+        if r.data.is_empty() {
+            return if r.closed { Poll::Ready(Ok(0)) } else { Poll::Pending };
+        }
+        let n = buf.len().min(r.data.len());
+        for b in buf[..n].iter_mut() {
+            *b = r.data.pop_front().unwrap();
+        }
+        Poll::Ready(Ok(n))
+    }
+}
+
+// ---------------------------------------------------------------- helpers
+
+fn recv_err_s(e: RecvError<io::Error>) -> String {
+    match e {
+        RecvError::Closed => "closed".into(),
+        RecvError::Parse(e) => format!("parse:{:?}:{}", e.kind, e.pos),
+        RecvError::Read(e) => format!("read:{:?}", e.kind()),
+    }
+}
+
+fn emplace_err_s(e: &flatty::Error) -> String {
+    format!("emplace:{:?}:{}", e.kind, e.pos)
+}
+
+/// Deep-reads the message behind a receive guard, then drops the guard.  The two steps are caught
+/// separately so that a panicking read cannot meet a panicking guard drop during unwinding.
+fn consume_guard<T: DeepRead + ?Sized, G: Deref<Target = T>>(guard: G) -> Result<String, Payload> {
+    let mut s = String::new();
+    let read = catch_unwind(AssertUnwindSafe(|| DeepRead::deep(&*guard, &mut s)));
+    let dropped = catch_unwind(AssertUnwindSafe(move || drop(guard)));
+    read?;
+    dropped?;
+    Ok(s)
+}
+
+/// Polls the future until it is ready; `None` when the poll budget of the case is used up.
+fn drive<F: Future + ?Sized>(mut fut: Pin<&mut F>, polls: &Cell<usize>, limit: usize) -> Option<F::Output> {
+    let waker = noop_waker();
+    let mut cx = Context::from_waker(&waker);
+    loop {
+        if polls.get() >= limit {
+            return None;
+        }
+        polls.set(polls.get() + 1);
+        if let Poll::Ready(v) = fut.as_mut().poll(&mut cx) {
+            return Some(v);
+        }
+    }
+}
+
+// ---------------------------------------------------------------- recv / arecv
+
+fn run_recv<T: Probe + ?Sized>(args: &[&str], is_async: bool) -> Result<String, String> {
+    if args.len() != 4 {
+        return Err(format!("recv needs 4 arguments, got {}", args.len()));
+    }
+    let max = parse_usize(args[0], "max_msg_len")?;
+    let stream = hex_to_bytes(args[1]);
+    let script = parse_script(args[2], 'd', is_async)?;
+    let nrecv = parse_usize(args[3], "nrecv")?;
+    let limit = stream.len() + script.len() + 2 * nrecv + 16;
+    Ok(recv_case::<T>(max, stream, script, nrecv, limit, is_async))
+}
+
+fn recv_case<T: Probe + ?Sized>(
+    max: usize,
+    stream: Vec<u8>,
+    script: VecDeque<Dir>,
+    nrecv: usize,
+    limit: usize,
+    is_async: bool,
+) -> String {
+    let st = ReadState::new(stream, script, limit);
+    let polls = Cell::new(0usize);
+    let mut outs: Vec<String> = Vec::new();
+
+    if !is_async {
+        match catch_unwind(AssertUnwindSafe(|| Receiver::<T, _>::io(ScriptedRead(st.clone()), max))) {
+            Err(_) => outs.push("panic".into()),
+            Ok(mut receiver) => {
+                for _ in 0..nrecv {
+                    let r = catch_unwind(AssertUnwindSafe(|| match receiver.recv() {
+                        Ok(g) => match consume_guard(g) {
+                            Ok(s) => format!("msg:{}", s),
+                            Err(p) => resume_unwind(p),
+                        },
+                        Err(e) => recv_err_s(e),
+                    }));
+                    match r {
+                        Ok(s) => outs.push(s),
+                        Err(p) => {
+                            outs.push(panic_s(&p).into());
+                            break;
+                        }
+                    }
+                }
+            }
+        }
+        let calls = st.borrow().calls;
+        format!("r={} calls={}", outs.join(";"), calls)
+    } else {
+        match catch_unwind(AssertUnwindSafe(|| AsyncReceiver::<T, _>::io(ScriptedAsyncRead(st.clone()), max))) {
+            Err(_) => outs.push("panic".into()),
+            Ok(mut receiver) => {
+                for _ in 0..nrecv {
+                    let r = catch_unwind(AssertUnwindSafe(|| {
+                        let mut fut = Box::pin(receiver.recv());
+                        match drive(fut.as_mut(), &polls, limit) {
+                            None => None,
+                            Some(Ok(g)) => match consume_guard(g) {
+                                Ok(s) => Some(format!("msg:{}", s)),
+                                Err(p) => resume_unwind(p),
+                            },
+                            Some(Err(e)) => Some(recv_err_s(e)),
+                        }
+                    }));
+                    match r {
+                        Ok(Some(s)) => outs.push(s),
+                        Ok(None) => {
+                            outs.push("hang".into());
+                            break;
+                        }
+                        Err(p) => {
+                            outs.push(panic_s(&p).into());
+                            break;
+                        }
+                    }
+                }
+            }
+        }
+        let calls = st.borrow().calls;
+        format!("r={} calls={} polls={}", outs.join(";"), calls, polls.get())
+    }
+}
+
+// ---------------------------------------------------------------- send / asend
+
+fn run_send<T: Probe + ?Sized>(args: &[&str]) -> Result<String, String>
+where
+    for<'b> Dyn<'b>: Emplacer<T>,
+{
+    if args.len() < 2 {
+        return Err(format!("send needs at least 2 arguments, got {}", args.len()));
+    }
+    let max = parse_usize(args[0], "max_msg_len")?;
+    let wscript = parse_script(args[1], 'a', false)?;
+    let specs = parse_inits(&args[2..])?;
+    let limit = 64 * specs.len() + wscript.len() + 16;
+    Ok(send_case::<T>(max, wscript, &specs, limit))
+}
+
+fn send_case<T: Probe + ?Sized>(max: usize, wscript: VecDeque<Dir>, specs: &[Spec], limit: usize) -> String
+where
+    for<'b> Dyn<'b>: Emplacer<T>,
+{
+    let st = WriteState::new(wscript, VecDeque::new(), limit);
+    let mut outs: Vec<String> = Vec::new();
+
+    match catch_unwind(AssertUnwindSafe(|| Sender::<T, _>::io(ScriptedWrite(st.clone()), max))) {
+        Err(_) => outs.push("panic".into()),
+        Ok(mut sender) => {
+            for spec in specs.iter() {
+                let r = catch_unwind(AssertUnwindSafe(|| {
+                    let g = match sender.alloc() {
+                        Ok(g) => g,
+                        Err(e) => return format!("alloc:{:?}", e.kind()),
+                    };
+                    let g = match g.new_in_place(Dyn(spec)) {
+                        Ok(g) => g,
+                        Err(e) => return emplace_err_s(&e),
+                    };
+                    match g.send() {
+                        Ok(()) => "ok".into(),
+                        Err(e) => format!("io:{:?}", e.kind()),
+                    }
+                }));
+                match r {
+                    Ok(s) => outs.push(s),
+                    Err(p) => {
+                        let hang = is_watchdog(&p);
+                        outs.push(panic_s(&p).into());
+                        if hang {
+                            break;
+                        }
+                    }
+                }
+            }
+        }
+    }
+    let s = st.borrow();
+    format!("s={} sink={} calls={}", outs.join(";"), bytes_to_hex(&s.sink), s.calls)
+}
+
+fn run_asend<T: Probe + ?Sized>(args: &[&str]) -> Result<String, String>
+where
+    for<'b> Dyn<'b>: Emplacer<T>,
+{
+    if args.len() < 3 {
+        return Err(format!("asend needs at least 3 arguments, got {}", args.len()));
+    }
+    let max = parse_usize(args[0], "max_msg_len")?;
+    let wscript = parse_script(args[1], 'a', true)?;
+    let fscript = parse_flush_script(args[2])?;
+    let specs = parse_inits(&args[3..])?;
+    let limit = 64 * specs.len() + wscript.len() + fscript.len() + 16;
+    Ok(asend_case::<T>(max, wscript, fscript, &specs, limit))
+}
+
+fn asend_case<T: Probe + ?Sized>(
+    max: usize,
+    wscript: VecDeque<Dir>,
+    fscript: VecDeque<FlushDir>,
+    specs: &[Spec],
+    limit: usize,
+) -> String
+where
+    for<'b> Dyn<'b>: Emplacer<T>,
+{
+    let st = WriteState::new(wscript, fscript, limit);
+    let polls = Cell::new(0usize);
+    let mut outs: Vec<String> = Vec::new();
+
+    match catch_unwind(AssertUnwindSafe(|| AsyncSender::<T, _>::io(ScriptedAsyncWrite(st.clone()), max))) {
+        Err(_) => outs.push("panic".into()),
+        Ok(mut sender) => {
+            for spec in specs.iter() {
+                st.borrow_mut().events.clear();
+                // None = poll budget used up
+                let r = catch_unwind(AssertUnwindSafe(|| -> Option<String> {
+                    let g = {
+                        let mut fut = Box::pin(sender.alloc());
+                        match drive(fut.as_mut(), &polls, limit)? {
+                            Ok(g) => g,
+                            Err(e) => return Some(format!("alloc:{:?}", e.kind())),
+                        }
+                    };
+                    let g = match g.new_in_place(Dyn(spec)) {
+                        Ok(g) => g,
+                        Err(e) => return Some(emplace_err_s(&e)),
+                    };
+                    let mut fut = Box::pin(g.send());
+                    Some(match drive(fut.as_mut(), &polls, limit)? {
+                        Ok(()) => "ok".into(),
+                        Err(e) => format!("io:{:?}", e.kind()),
+                    })
+                }));
+                let events = st.borrow_mut().take_events();
+                let (o, stop) = match r {
+                    Ok(Some(s)) => (s, false),
+                    Ok(None) => ("hang".to_string(), true),
+                    Err(p) => (panic_s(&p).to_string(), is_watchdog(&p)),
+                };
+                outs.push(format!("{}[{}]", o, events));
+                if stop {
+                    break;
+                }
+            }
+        }
+    }
+    let s = st.borrow();
+    format!(
+        "s={} sink={} calls={} polls={}",
+        outs.join(";"),
+        bytes_to_hex(&s.sink),
+        s.calls,
+        polls.get()
+    )
+}
+
+// ---------------------------------------------------------------- sys
+
+enum SendEnd {
+    Emplace(flatty::Error),
+    Io(io::Error),
+}
+
+/// Bytes a blocking sender writes for these inits into a pipe that accepts everything.
+fn total_bytes<T: Probe + ?Sized>(max: usize, specs: &[Spec]) -> usize
+where
+    for<'b> Dyn<'b>: Emplacer<T>,
+{
+    let st = WriteState::new(VecDeque::new(), VecDeque::new(), usize::MAX);
+    let _ = catch_unwind(AssertUnwindSafe(|| {
+        let mut sender = Sender::<T, _>::io(ScriptedWrite(st.clone()), max);
+        for spec in specs.iter() {
+            let _ = catch_unwind(AssertUnwindSafe(|| {
+                if let Ok(g) = sender.alloc() {
+                    if let Ok(g) = g.new_in_place(Dyn(spec)) {
+                        let _ = g.send();
+                    }
+                }
+            }));
+        }
+    }));
+    let n = st.borrow().sink.len();
+    n
+}
+
+fn run_sys<T: Probe + ?Sized>(args: &[&str]) -> Result<String, String>
+where
+    for<'b> Dyn<'b>: Emplacer<T>,
+{
+    if args.len() < 3 {
+        return Err(format!("sys needs at least 3 arguments, got {}", args.len()));
+    }
+    let max = parse_usize(args[0], "max_msg_len")?;
+    let cap = parse_usize(args[1], "pipe_cap")?;
+    if cap == 0 {
+        return Err("pipe_cap must be at least 1".into());
+    }
+    let schedule: Vec<char> = if args[2] == "-" { Vec::new() } else { args[2].chars().collect() };
+    if let Some(c) = schedule.iter().find(|c| !matches!(**c, 'S' | 'R' | 's' | 'r')) {
+        return Err(format!("bad schedule letter {:?}", c));
+    }
+    let specs = parse_inits(&args[3..])?;
+    let nmsgs = specs.len();
+    let total = total_bytes::<T>(max, &specs);
+    let budget = 4 * (total + nmsgs) + 64;
+    let ring_limit = 8 * (total + nmsgs) + 4 * schedule.len() + 256;
+    Ok(sys_case::<T>(max, cap, &schedule, &specs, budget, ring_limit))
+}
+
+fn sys_case<T: Probe + ?Sized>(
+    max: usize,
+    cap: usize,
+    schedule: &[char],
+    specs: &[Spec],
+    budget: usize,
+    ring_limit: usize,
+) -> String
+where
+    for<'b> Dyn<'b>: Emplacer<T>,
+{
+    let nmsgs = specs.len();
+    let ring = Rc::new(RefCell::new(Ring {
+        data: VecDeque::new(),
+        cap,
+        closed: false,
+        spurious: false,
+        calls: 0,
+        limit: ring_limit,
+    }));
+    let made = catch_unwind(AssertUnwindSafe(|| {
+        (
+            AsyncSender::<T, _>::io(RingWriter(ring.clone()), max),
+            AsyncReceiver::<T, _>::io(RingReader(ring.clone()), max),
+        )
+    }));
+    let (mut sender, mut receiver) = match made {
+        Ok(x) => x,
+        Err(_) => return "delivered= recv_end=panic send_end=panic polls=0".into(),
+    };
+    let delivered: RefCell<Vec<String>> = RefCell::new(Vec::new());
+
+    let mut send_task = Box::pin(async {
+        for spec in specs.iter() {
+            let g = sender.alloc().await.map_err(SendEnd::Io)?;
+            let g = g.new_in_place(Dyn(spec)).map_err(SendEnd::Emplace)?;
+            g.send().await.map_err(SendEnd::Io)?;
+        }
+        Ok::<(), SendEnd>(())
+    });
+    let mut recv_task = Box::pin(async {
+        loop {
+            match receiver.recv().await {
+                Ok(g) => {
+                    let s = match consume_guard(g) {
+                        Ok(s) => s,
+                        Err(p) => resume_unwind(p),
+                    };
+                    let mut d = delivered.borrow_mut();
+                    d.push(s);
+                    if d.len() > nmsgs + 16 {
+                        panic_any(WATCHDOG);
+                    }
+                }
+                Err(e) => break e,
+            }
+        }
+    });
+
+    let waker = noop_waker();
+    let mut cx = Context::from_waker(&waker);
+    let mut send_end: Option<String> = None;
+    let mut recv_end: Option<String> = None;
+    let mut polls = 0usize;
+    let mut further = 0usize;
+    let mut next = 0usize;
+    let mut tail_turn = 0usize;
+    loop {
+        let (c, in_tail) = if next < schedule.len() {
+            next += 1;
+            (schedule[next - 1], false)
+        } else {
+            if (send_end.is_some() && recv_end.is_some()) || further >= budget {
+                break;
+            }
+            tail_turn += 1;
+            (if tail_turn % 2 == 1 { 'S' } else { 'R' }, true)
+        };
+        let spurious = c == 's' || c == 'r';
+        let polled = match c {
+            'S' | 's' => {
+                if send_end.is_some() {
+                    false
+                } else {
+                    ring.borrow_mut().spurious = spurious;
+                    let r = catch_unwind(AssertUnwindSafe(|| send_task.as_mut().poll(&mut cx)));
+                    ring.borrow_mut().spurious = false;
+                    let end = match r {
+                        Ok(Poll::Pending) => None,
+                        Ok(Poll::Ready(Ok(()))) => Some("ok".to_string()),
+                        Ok(Poll::Ready(Err(SendEnd::Emplace(e)))) => Some(emplace_err_s(&e)),
+                        Ok(Poll::Ready(Err(SendEnd::Io(e)))) => Some(format!("io:{:?}", e.kind())),
+                        Err(p) => Some(panic_s(&p).to_string()),
+                    };
+                    if end.is_some() {
+                        send_end = end;
+                        ring.borrow_mut().closed = true;
+                    }
+                    true
+                }
+            }
+            _ => {
+                if recv_end.is_some() {
+                    false
+                } else {
+                    ring.borrow_mut().spurious = spurious;
+                    let r = catch_unwind(AssertUnwindSafe(|| recv_task.as_mut().poll(&mut cx)));
+                    ring.borrow_mut().spurious = false;
+                    match r {
+                        Ok(Poll::Pending) => (),
+                        Ok(Poll::Ready(e)) => recv_end = Some(recv_err_s(e)),
+                        Err(p) => recv_end = Some(panic_s(&p).to_string()),
+                    }
+                    true
+                }
+            }
+        };
+        if polled {
+            polls += 1;
+            if in_tail {
+                further += 1;
+            }
+        }
+    }
+    let res = format!(
+        "delivered={} recv_end={} send_end={} polls={}",
+        delivered.borrow().join(";"),
+        recv_end.unwrap_or_else(|| "running".into()),
+        send_end.unwrap_or_else(|| "running".into()),
+        polls
+    );
+    res
+}
+
+// ---------------------------------------------------------------- entry
+
+pub fn run_io<T: Probe + ?Sized>(kind: &str, args: &[&str]) -> String
+where
+    for<'b> Dyn<'b>: Emplacer<T>,
+{
+    let r = catch_unwind(AssertUnwindSafe(|| match kind {
+        "recv" => run_recv::<T>(args, false),
+        "arecv" => run_recv::<T>(args, true),
+        "send" => run_send::<T>(args),
+        "asend" => run_asend::<T>(args),
+        "sys" => run_sys::<T>(args),
+        other => Err(format!("unknown io kind {}", other)),
+    }));
+    match r {
+        Ok(Ok(s)) => s,
+        Ok(Err(e)) => format!("HARNESS-ERROR {}", e),
+        Err(_) => "HARNESS-ERROR panic outside the guarded steps".into(),
+    }
 }
